@@ -5,10 +5,12 @@ CONSTANTS
   RootLim = 3
   NodeLim = 4
   MaxOps = 11
+  WithRebuild = FALSE
 INVARIANT InvDx
 INVARIANT InvLookup
 INVARIANT InvLive
 INVARIANT InvChain
 INVARIANT InvDisguise
 INVARIANT InvRefusal
+INVARIANT InvRebuiltForm
 CHECK_DEADLOCK FALSE
